@@ -15,6 +15,7 @@ from vf.runner import Ob
 from vf.sched import Sched
 
 LEVEL = "other"
+TECHNIQUE = ('symx: symbolic schedules (pre-emption bound) of real readers vs real writers; window / all-or-nothing oracle per path; concrete replay')
 EXPLANATION = (
     "Bounded symbolic execution (symx/z3) of the real read paths racing real commits under a baton scheduler: the "
     "reader can be pre-empted at every storage read, writers at every file publication and pointer operation; the "
